@@ -56,7 +56,7 @@ func (s *Server) Routes(ctx context.Context) error {
 	s.Router.MethodFunc("GET", "/static/*", s.embeddedStaticHandlerFunc)
 	s.Router.MethodFunc("HEAD", "/static/*", s.embeddedStaticHandlerFunc)
 	s.Router.MethodFunc("GET", "/reqcount", s.reqCountHandlerFunc)
-	s.Router.MethodFunc("OPTIONS", "/*", s.optionsHandlerFunc)
+	s.Router.MethodFunc("OPTIONS", "/*", s.optionsHandlerFunc(s.Router))
 	s.Router.Handle("/player/*", createReversePlayerProxy("/player", s.Cfg.PlayURL))
 	s.Router.MethodFunc("GET", "/patch/*", s.patchHandlerFunc)
 	s.Router.MethodFunc("GET", "/", s.indexHandlerFunc)
@@ -65,11 +65,11 @@ func (s *Server) Routes(ctx context.Context) error {
 	s.LiveRouter.MethodFunc("GET", "/*", s.livesimHandlerFunc)
 	s.LiveRouter.MethodFunc("HEAD", "/*", s.livesimHandlerFunc)
 	s.LiveRouter.MethodFunc("POST", "/*", s.laURLHandlerFunc)
-	s.LiveRouter.MethodFunc("OPTIONS", "/*", s.optionsHandlerFunc)
+	s.LiveRouter.MethodFunc("OPTIONS", "/*", s.optionsHandlerFunc(s.LiveRouter))
 	// VodRouter is mounted at /vod
 	s.VodRouter.MethodFunc("GET", "/*", s.vodHandlerFunc)
 	s.VodRouter.MethodFunc("HEAD", "/*", s.vodHandlerFunc)
-	s.VodRouter.MethodFunc("OPTIONS", "/*", s.optionsHandlerFunc)
+	s.VodRouter.MethodFunc("OPTIONS", "/*", s.optionsHandlerFunc(s.VodRouter))
 	// Redirect /livesim to /livesim2 and /livesim-chunked for backwards compatibility
 	s.Router.MethodFunc("GET", "/livesim/*", redirect("/livesim", "/livesim2"))
 	s.Router.MethodFunc("GET", "/livesim-chunked/*", redirect("/livesim-chunked", "/livesim2"))
